@@ -13,8 +13,7 @@
 
    Same case splits, same order of checks, same early returns as the Go code.  What is abstracted
    (and kept out of the generated inputs, see the harness): route-level validation (hostnames,
-   matches, filters: routes are valid), backendRef-level filters (any such filter panics before
-   reaching this code, defect D1 of property C05), BackendTLSPolicies (none), NginxProxy IP family
+   matches, rule-level filters: routes are valid), BackendTLSPolicies (none), NginxProxy IP family
    (none), listener port/hostname/protocol conflicts (none), tls.X509KeyPair (a Secret carries a
    flag "is a well-formed kubernetes.io/tls secret").  No proofs in this file. *)
 From Coq Require Import List String Bool ZArith.
@@ -101,7 +100,8 @@ Definition cs_listener_ref_not_permitted : list cond :=
 
 Record backend_ref := BR {
   br_group : option string; br_kind : option string; br_name : string; br_ns : option string;
-  br_port : option Z; br_weight : option Z }.
+  br_port : option Z; br_weight : option Z;
+  br_filters : bool }.                    (* the HTTP/GRPC backendRef carries filters (never for a TLSRoute) *)
 
 (* the internal BackendRef, projected: Valid, SvcNsName, ServicePort.Port, Weight *)
 Record bref_out := BO { bo_valid : bool; bo_svc : nsname; bo_port : Z; bo_weight : Z }.
@@ -125,6 +125,10 @@ Definition validate_backend_ref (allowed : to_res -> bool) (route_ns : string) (
            then Some c_route_unsupported_value
            else None
        end.
+
+(* validateRouteBackendRef (HTTPRoute / GRPCRoute): backendRef filters are not supported, checked first *)
+Definition validate_route_backend_ref (allowed : to_res -> bool) (route_ns : string) (r : backend_ref) : option cond :=
+  if br_filters r then Some c_route_unsupported_value else validate_backend_ref allowed route_ns r.
 
 Definition svc := (nsname * list Z)%type.     (* a Service and the numbers of its ports *)
 
@@ -151,7 +155,7 @@ Definition l7_weight (r : backend_ref) : Z :=
 Definition create_backend_ref (allowed : to_res -> bool) (svcs : list svc) (route_ns : string)
            (r : backend_ref) : bref_out * option cond :=
   let weight := l7_weight r in
-  match validate_backend_ref allowed route_ns r with
+  match validate_route_backend_ref allowed route_ns r with
   | Some c => (BO false empty_nsname 0%Z weight, Some c)
   | None =>
       let n := ref_target route_ns r in
